@@ -14,6 +14,7 @@ import (
 	"os/exec"
 	"strconv"
 	"sync"
+	"syscall"
 	"testing"
 	"time"
 
@@ -285,6 +286,42 @@ func TestRace_Client(t *testing.T) {
 				run(o)
 			}
 			wg.Wait()
+			if iter%3 == 1 {
+				// the plugin process dies (SIGKILL) while goroutines keep using the protocol client and objects they
+				// already hold (over gRPC that makes the connection redial from gRPC's own goroutines) and read the accessors
+				if p, err := cl.Client(); err == nil {
+					raw, _ := p.Dispense("kv")
+					stop := make(chan struct{})
+					for g := 0; g < 4; g++ {
+						run(func() {
+							for {
+								select {
+								case <-stop:
+									return
+								default:
+								}
+								p.Ping()
+								if st, ok := raw.(kv.Store); ok {
+									st.Get()
+								}
+								p.Dispense("kv")
+								// (no Client method here: its lock would order this goroutine, and through it gRPC's, after the exit watcher)
+								time.Sleep(time.Millisecond)
+							}
+						})
+					}
+					time.Sleep(20 * time.Millisecond)
+					if rc := cl.ReattachConfig(); rc != nil && rc.Pid > 1 {
+						syscall.Kill(rc.Pid, syscall.SIGKILL)
+					}
+					for i := 0; i < 300 && !cl.Exited(); i++ {
+						time.Sleep(10 * time.Millisecond)
+					}
+					time.Sleep(1500 * time.Millisecond) // (gRPC's first redial comes after its 1 s back-off)
+					close(stop)
+					wg.Wait()
+				}
+			}
 			// shutdown racing with accessors and a second Kill
 			run(func() { cl.Kill() })
 			run(func() { cl.Kill() })
